@@ -96,6 +96,76 @@ def run_unit(uname, seed=None, rlimit=None, pid=''):
     return r
 
 
+def seed_sensitivity(pid, unames):
+    """thorough tier, evidence only (never changes the verdict): re-apply every seeded change of this property (seeded/<id>/patch.diff,
+    written by sub-agents that saw only the property text, each confirmed to break the property on the real code) to a scratch
+    copy of the current /repo/src and report whether the contracts still reject it.  The scratch copy lives outside /repo and
+    /verif and is removed."""
+    import shutil, tempfile, subprocess
+    from .unit import REPO
+    out = []
+    sdir = os.path.join(VERIF, 'seeded')
+    if not os.path.isdir(sdir):
+        return out
+    def one(sid):
+        rec = {'seed': sid}
+        scratch = None
+        try:
+            meta = json.load(open(os.path.join(sdir, sid, 'meta.json')))
+            if meta.get('property') != pid:
+                return None
+            patch = os.path.join(sdir, sid, 'patch.diff')
+            files = re.findall(r'^\+\+\+ b/(\S+)', open(patch).read(), re.M)
+            scratch = tempfile.mkdtemp(prefix='verif-sens-')
+            shutil.copytree(os.path.join(REPO, 'src'), os.path.join(scratch, 'src'))
+            pr = subprocess.run(['patch', '-p1', '-s', '-d', scratch, '-i', patch], stdout=subprocess.PIPE, stderr=subprocess.STDOUT)
+            if pr.returncode != 0:
+                rec['verdict'] = 'patch does not apply to the current tree'
+                return rec
+            us = []
+            for u in unames:
+                txt = open(os.path.join(VERIF, 'units', u + '.ctr')).read()
+                if any(re.search(r'^@@(fn|lift|type|const)\s+%s\s' % re.escape(f), txt, re.M) for f in files):
+                    us.append(u)
+            verdict = 'accepted (NOT rejected by any obligation)'
+            failed = []
+            for u in us:
+                try:
+                    unit, res = build_and_run(u, canary=False, repo=scratch, subdir=os.path.join(pid, 'sens-' + sid))
+                except ExtractError as e:
+                    verdict = 'undecided (extraction: %s)' % str(e)[:80]
+                    continue
+                hard = [d for d in res.diags if d.category == 'other' and d.level == 'error']
+                for d in res.diags:
+                    if d.category != 'verification' or d.kind == 'recommends':
+                        continue
+                    oid, it = obligation_id(unit, d)
+                    if it is None or pid not in it.props:
+                        continue
+                    failed.append(oid)
+                if hard and not failed and not verdict.startswith('rejected'):
+                    verdict = 'undecided (%s)' % hard[0].message[:80]
+            known_ids = set(k['id'] for k in load_known()[0])
+            new = [o for o in failed if o not in known_ids]
+            if new:
+                verdict = 'rejected'
+                rec['failed_obligations'] = sorted(set(new))[:4]
+            rec['units'] = us
+            rec['verdict'] = verdict
+            return rec
+        except Exception as e:      # evidence only: never let this break a check
+            rec['verdict'] = 'error: %s' % str(e)[:120]
+            return rec
+        finally:
+            if scratch:
+                shutil.rmtree(scratch, ignore_errors=True)
+    with cf.ThreadPoolExecutor(max_workers=4) as ex:
+        for r in ex.map(one, sorted(os.listdir(sdir))):
+            if r is not None:
+                out.append(r)
+    return out
+
+
 def main(argv=None):
     argv = argv or sys.argv[1:]
     if not argv:
@@ -417,6 +487,12 @@ def main(argv=None):
     }
     if undecided:
         ev['coverage']['undecided'] = undecided
+    if tier == 'thorough' and rc == 0:
+        sens = seed_sensitivity(pid, unames)
+        ev['coverage']['seed_sensitivity'] = {
+            'what': 'seeded property-breaking changes of this property (seeded/<id>) re-applied to a scratch copy of the current tree; evidence only, never part of the verdict',
+            'seeds': sens, 'rejected': sum(1 for x in sens if x.get('verdict') == 'rejected'), 'total': len(sens)}
+        ev['wall_s'] = round(time.time() - t0, 2)
     with open(os.path.join(EVID, pid + '.json'), 'w') as f:
         json.dump(ev, f, indent=1)
     print('%s property=%s tier=%s obligations=%d discharged=%d known_findings=%d canaries=%d/%d wall=%.1fs' % (
